@@ -356,6 +356,48 @@ class GaussFlat(GaussU):
         return math.log(ndtr((hi - self.mu[0]) / self.sigma[0]) - ndtr((lo - self.mu[0]) / self.sigma[0])) - math.log(hi - lo)
 
 
+class Bimodal(ZooModel):
+    """Equal mixture of two well separated isotropic Gaussians under a uniform box prior (multi-modal posterior); closed-form evidence and moments."""
+
+    def __init__(self, d=2, sep=2.0, sigma=0.5, lo=-5.0, hi=5.0):
+        self.names = [f"x{i}" for i in range(d)]
+        self.bounds = {n: [lo, hi] for n in self.names}
+        self.sep, self.sigma, self.d = sep, sigma, d
+        self._logvol = d * math.log(hi - lo)
+        self._init_boundary()
+
+    def _lp(self, x):
+        return np.log(self.in_bounds(x), dtype=float) - self._logvol
+
+    def _comp(self, x, sign):
+        s = 0.0
+        for n in self.names:
+            z = (x[n] - sign * self.sep) / self.sigma
+            s = s + z * z
+        return -0.5 * s - self.d * (math.log(self.sigma) + 0.5 * LOG2PI)
+
+    def _ll(self, x):
+        return np.logaddexp(self._comp(x, 1.0), self._comp(x, -1.0)) + math.log(0.5)
+
+    @property
+    def true_log_evidence(self):
+        lo, hi = self.bounds[self.names[0]]
+        m = 0.0
+        for sign in (1.0, -1.0):
+            m += 0.5 * (ndtr((hi - sign * self.sep) / self.sigma) - ndtr((lo - sign * self.sep) / self.sigma)) ** self.d
+        return math.log(m) - self._logvol
+
+    def posterior_moments(self):
+        # truncation at >= 6 sigma is negligible: mean 0, variance sigma^2 + sep^2 in every coordinate
+        return {n: (0.0, self.sigma ** 2 + self.sep ** 2) for n in self.names}
+
+    def sample_prior(self, n, rng):
+        from nessai.livepoint import numpy_array_to_live_points
+
+        lo, hi = self.bounds[self.names[0]]
+        return numpy_array_to_live_points(rng.uniform(lo, hi, (n, self.d)), self.names)
+
+
 class Tie2(GaussU):
     """Gaussian likelihood rounded to a coarse grid: many exact ties and plateaus."""
 
@@ -403,6 +445,8 @@ def make(name, **kw):
         m = GaussTN(2, **kw)
         m.box_draws = True
         return m
+    if name == "Bi2":
+        return Bimodal(2, **kw)
     if name == "G2c":
         return GaussConstrained(**kw)
     if name == "G2f":
